@@ -98,6 +98,11 @@ template <class CharT, class... A>
 static std::string to_ostream(const char *fmt, const A &...a)
 {
     std::basic_ostringstream<CharT> os;
+    // formatting state the caller may have left on the stream: writef writes its bytes unformatted and must ignore it
+    // (char16_t / char32_t streams have no ctype facet: fill() would throw std::bad_cast there)
+    if constexpr (std::is_same<CharT, char>::value || std::is_same<CharT, wchar_t>::value) {
+        if (g_align & 1) { os.width(12); os.fill(CharT('.')); os.setf(std::ios_base::left, std::ios_base::adjustfield); }
+    }
     const char *e = ending([&] { ST::writef(os, fmt, a...); });
     std::basic_string<CharT> s = os.str();
     return stream_result(s.data(), s.size(), e);
@@ -284,6 +289,29 @@ static std::string do_extract(const std::string &tok)
         failbit = is.fail();
     });
     o << " st=" << hex(st) << " fail=" << (failbit ? 1 : 0) << " end=" << e1;
+    // a SEQUENCE of extractions under stream state the caller has set (a field width, skipws off and on again): the
+    // ST::string extractor must take the same tokens and leave the stream in the same state as the std::basic_string
+    // extractor (reported only when it does not, so that the line is unchanged)
+    for (int variant = 0; variant < 3; ++variant) {
+        std::basic_istringstream<CharT> ia(text), ib(text);
+        std::basic_string<CharT> r1, r2, r3;
+        ST::string s1, s2, s3;
+        bool threw = false;
+        auto prep = [&](std::basic_istream<CharT> &is) {
+            if (variant == 0) is.width(3);
+            if (variant == 1) is.width(1);
+            if (variant == 2) is.unsetf(std::ios_base::skipws);
+        };
+        prep(ia); prep(ib);
+        try { ia >> r1 >> r2 >> r3; } catch (...) { threw = true; }
+        try { ib >> s1 >> s2 >> s3; } catch (...) { threw = true; }
+        if (threw) continue;
+        auto same = [](const std::basic_string<CharT> &r, const ST::string &x) {
+            try { ST::string y; y.set(r.c_str(), r.size()); return y == x; } catch (...) { return true; }
+        };
+        if (!same(r1, s1) || !same(r2, s2) || !same(r3, s3) || ia.rdstate() != ib.rdstate() || ia.width() != ib.width())
+            o << " seqdiff=" << variant;
+    }
     return o.str();
 }
 #endif
